@@ -162,6 +162,27 @@ CLAIMED = {
    ref='DESIGN.md section 4, C20'),
 }
 
+ROUND3 = {
+ 'C01': 'libxml2 is called without XML_PARSE_HUGE/NOENT/DTDLOAD (L1); contradiction rule: a local pointer the function itself compares with nullptr is dereferenced only under a non-null fact (N3).',
+ 'C03': 'loadProfile assigns every flag and string of the profile for both languages (F1); decision table over AnalyserInternalVariable::Type for the late requalification of variable-based constants (Q1) and the requalification runs to a fixpoint (Q2).',
+ 'C04': 'a flag gathered over a loop is only raised inside it (A1); the cycle guard of the units reduction pops what it pushed on every path (P1).',
+ 'C05': 'a variable is recorded once per role: add<Role>Variable tests the list it extends (D1); self-recursive functions of analyser.cpp do not pass their own arguments on unchanged (R1).',
+ 'C06': 'after a units transfer the referring unit child takes the name of the very object that was transferred (U2).',
+ 'C07': 'every function that pushes an epoch on a shared import history pops it on every non-error path (H2).',
+ 'C08': 'Units::compatible can answer true only where isDefined() held for both arguments (G2).',
+ 'C09': 'an iterator into a child container is not used after a call that can change that container (V1).',
+ 'C10': 'decision table of the early-return guards of ulpsDistance over {finite, infinite, NaN}^2 (U2).',
+ 'C11': 'clone() reads children of an index loop with the loop index (X1) and hands entities, not names, to the copy (D3).',
+ 'C12': 'the generator calls state-changing AST methods only on nodes it created (M2).',
+ 'C13': 'index builders record every non-empty id, independent of where the entity sits (L1); the change-detection hash is stored only where the index was just rebuilt (H1).',
+ 'C14': '1.x namespace removal runs for every math element (M2); 1.x loaders test ids through isIdAttribute (I1); flags gathered over node loops are only raised (A2).',
+ 'C16': 'recogniser shape: sign set and single optional sign of isCellMLInteger, no fallback conversion in stringToDouble.',
+ 'C17': 'every emitted method gets its body through generateMethodBodyCode (B1); what stays in computeComputedConstants is decided by a decision table over the variable kinds (Q1) and a fixpoint (Q2).',
+ 'C18': 'the equivalence memo is touched only by AnalyserModel::areEquivalentVariables (K2); an explicit work-list form of the search is accepted and must not abandon pending entries (V1).',
+ 'C19': 'determineInterfaceType is called for every variable with equivalences (I5); an accumulated verdict is never overwritten by a plain assignment (L3).',
+ 'C20': 'the unmarking of the variable of integration is unconditional within its branch (V1); internalVariable() lookups in the marking loop are dominated by the same-model test (F1).',
+}
+
 NOT_YET = {}
 
 NA = {}
@@ -182,7 +203,7 @@ def main():
                 'evidence_file': 'evidence/%s.json' % pid,
                 'replay_cmd_template': './check --replay {path}',
                 'engine': 'sa',
-                'level_claimed': {'category': 'other', 'text': c['text'], 'design_ref': c['ref']},
+                'level_claimed': {'category': 'other', 'text': c['text'] + (' Added after round-3 seeding: ' + ROUND3[pid] if pid in ROUND3 else ''), 'design_ref': c['ref']},
                 'level_note': c['note'],
                 'technique': c['technique'],
             })
